@@ -11,7 +11,7 @@ from .c01_modulation import _all_cfgs, _build, _cfg_st, _tags
 
 PROPERTY = "C16"
 LEVEL = "exploration"
-RULE = ("every modulator order (BPSK, QPSK, PSK 2..2^10 [2^12 thorough] "
+RULE = ("every modulator order (BPSK, QPSK, PSK 2..2^12 "
         "with and without phase offset, QAM 4..4^6) is enumerated on the "
         "complete grid -30..60 dB (step 0.25 dB) plus the 100/200/300 dB "
         "limit; generated cases draw the modulator, 1..32 SNR values in "
@@ -96,7 +96,8 @@ def _curves_st(draw, tier):
                    n=draw(st.integers(2, 48)))
     lmax = 10 ** 4 if tier == "quick" else 10 ** 6
     L = draw(st.one_of(st.integers(1, 200), st.integers(1, lmax),
-                       st.sampled_from([1, 2, 50, 120, 1000, lmax])))
+                       st.sampled_from([1, 2, 50, 120, 1000, lmax, 10001,
+                                        12000, 65536, 10 ** 6])))
     form = draw(st.sampled_from(["array1d", "array1d", "array2d", "pyfloat",
                                  "npfloat", "intarray", "pyint"]))
     return dict(part="curves", cfg=cfg, snr=snr, L=L, form=form,
@@ -105,7 +106,8 @@ def _curves_st(draw, tier):
 
 def _enum_grid(tier):
     cases = []
-    for cfg in _all_cfgs(tier):
+    # (all orders of the thorough tier: the grid costs milliseconds)
+    for cfg in _all_cfgs("thorough"):
         cfgs = [cfg]
         if cfg["cls"] == "PSK":
             cfgs.append(dict(cfg, phi=math.pi / cfg["M"]))
@@ -445,6 +447,43 @@ def _buffer_reuse(mod, cfg, used, L, ctx, tags):
             raise Violation("snr_array_modified", "a calcTheoretical* call "
                             "changed the SNR array handed to it", tags)
     ctx.label("buffer_reuse_checked")
+    # the caller owns what was returned: clipping / scaling a returned array
+    # in place (ser[ser < 1e-6] = 1e-6 for a log plot) changes no later
+    # answer, and a second packet length on the same object and SNR is
+    # answered for that length
+    arg = np.array(used, dtype=float)
+    L2 = L + 37 if L < 5000 else max(1, L // 3)
+    for name, f_obj, f_new, extras in (
+            ("SER", mod.calcTheoreticalSER, fresh.calcTheoreticalSER, [()]),
+            ("BER", mod.calcTheoreticalBER, fresh.calcTheoreticalBER, [()]),
+            ("PER", mod.calcTheoreticalPER, fresh.calcTheoreticalPER,
+             [(L,), (L2,), (L,)]),
+            ("SE", mod.calcTheoreticalSpectralEfficiency,
+             fresh.calcTheoreticalSpectralEfficiency, [(L,), (L2,), (L,)])):
+        for extra in extras:
+            first = np.asarray(f_obj(arg.copy(), *extra))
+            keep = np.array(first, dtype=float, copy=True)
+            if first.flags.writeable:
+                first[...] = np.nan          # the caller scribbles on it
+            again = np.asarray(f_obj(arg.copy(), *extra), dtype=float)
+            ref = np.asarray(f_new(arg.copy(), *extra), dtype=float)
+            if again.shape != keep.shape or not np.array_equal(again, keep) \
+                    or not np.allclose(again, ref, rtol=1e-12, atol=0.0):
+                raise Violation("returned_array_shared", "%s%r: the answer "
+                                "changed after the caller overwrote the "
+                                "array returned before, or differs from a "
+                                "fresh object" % (name, extra), tags)
+            # scalar SNR, same object
+            x0 = float(arg[len(arg) // 2])
+            sc = float(f_obj(x0, *extra))
+            # (reference: an object that has never been asked anything)
+            rf = float(getattr(_build(cfg), f_new.__name__)(x0, *extra))
+            if not (sc == rf or abs(sc - rf) <= 1e-12 * abs(rf)):
+                raise Violation("scalar_after_other_length", "%s(%r%s) = %r "
+                                "on the used object, %r on a fresh one" %
+                                (name, x0, "".join(", %r" % e for e in extra),
+                                 sc, rf), tags)
+    ctx.label("returned_array_and_two_lengths_checked")
     # the SNR values need not be sorted (per-stream SINRs, a descending
     # sweep): every element is answered on its own
     if len(used) >= 2:
